@@ -30,10 +30,37 @@ async def _transaction(p, i, cfg, log):
         for k in range(n):
             key = b"t%d-p%d-%d" % (i, part, k)
             fut = await p.send("t", b"v", key=key, partition=part)
-            rec["records"].append((part, key))
+            (rec["late_records"] if rec.get("ending") else rec["records"]).append((part, key))
             rec["futs"].append(fut)
             if cfg.get("send_gap"):
                 await asyncio.sleep(cfg["send_gap"])
+
+    if cfg.get("race_end_after") is not None:
+        # another task keeps sending (and parks on a full batch of a muted partition) while this one ends the transaction
+        rec["late_records"] = []
+        st = asyncio.ensure_future(sender(0, 4))
+        for _ in range(400):
+            if len(rec["records"]) >= cfg["race_end_after"] or st.done():
+                break
+            await asyncio.sleep(0.001)
+        rec["ending"] = True
+        try:
+            if cfg["end"] == "commit":
+                await p.commit_transaction()
+                rec["outcome"] = "committed"
+            else:
+                await p.abort_transaction()
+                rec["outcome"] = "aborted"
+        finally:
+            done, _ = await asyncio.wait([st], timeout=30)
+            if not done:
+                st.cancel()
+                rec["late_send"] = "hangs"
+            elif st.exception() is not None:
+                rec["late_send"] = "refused: " + type(st.exception()).__name__
+            else:
+                rec["late_send"] = "accepted"
+        return
 
     if cfg.get("stagger"):
         # the second task starts a little later (a new partition appears while AddPartitionsToTxn for the
@@ -60,7 +87,7 @@ async def _transaction(p, i, cfg, log):
         rec["outcome"] = "aborted"
 
 
-def s1_transactions(src, ntxn, fault_kinds, max_fault_requests, max_faults, kill, timing=False):
+def s1_transactions(src, ntxn, fault_kinds, max_fault_requests, max_faults, kill, timing=False, race=False):
     cfgs = []
     for i in range(ntxn):
         cfgs.append({"end": ["commit", "abort"][src.choice(f"end{i}", 2)], "n0": src.choice(f"n0_{i}", 3),
@@ -69,12 +96,17 @@ def s1_transactions(src, ntxn, fault_kinds, max_fault_requests, max_faults, kill
         c["send_gap"] = [0.0, 0.004][src.choice(f"send_gap{cfgs.index(c)}", 2)] if timing else 0.0
         c["stagger"] = [0.0, 0.006][src.choice(f"stagger{cfgs.index(c)}", 2)] if timing else 0.0
         c["prebuilt_batch"] = src.flag(f"prebuilt_batch{cfgs.index(c)}") if timing else False
+    if race:
+        for c in cfgs:
+            c["race_end_after"] = 1 + src.choice(f"end_called_after_accepted_sends{cfgs.index(c)}", 3)
     marker_delay = [0.0, 0.03][src.choice("marker_delay", 2)]
     kill_at = src.choice("kill_at", 5) if kill else None  # event index at which the producer is killed and replaced
     cluster = simkafka.Cluster(nodes=(0, 1), topics={"t": 2, "in": 1})
     cluster.marker_delay = marker_delay
     cluster.blackhole = set()
     cluster.add_partitions_delay = [0.0, 0.02][src.choice("add_partitions_delay", 2)] if timing else 0.0
+    if race:
+        cluster.produce_delay = {0: [0.0, 0.03][src.choice("leader_of_p0_replies_after", 2)]}
     if "produce_reject" in fault_kinds:
         # one leader answers late: its reply is still outstanding when the other leader's verdict arrives
         cluster.produce_delay = {[0, 1][src.choice("slow_leader", 2)]: 0.05}
@@ -85,7 +117,7 @@ def s1_transactions(src, ntxn, fault_kinds, max_fault_requests, max_faults, kill
 
     async def main(loop):
         with simkafka.installed(cluster):
-            p = await txnsim.open_producer(cluster, client_id="P1")
+            p = await txnsim.open_producer(cluster, client_id="P1", **({"max_batch_size": 90} if race else {}))
             faults.enabled = True
             killed = False
             try:
@@ -203,15 +235,18 @@ def harnesses(tier):
     q = tier == "quick"
     if q:
         confs = [(1, ("retriable",), 8, 1, False, False), (2, ("abortable",), 6, 1, False, False), (2, (), 0, 0, True, False),
-                 (2, (), 0, 0, False, True), (2, ("retriable",), 12, 1, False, False), (1, ("produce_reject",), 8, 1, False, False)]
+                 (2, (), 0, 0, False, True), (2, ("retriable",), 12, 1, False, False), (1, ("produce_reject",), 8, 1, False, False),
+                 (2, (), 0, 0, False, "race")]
     else:
         confs = [(2, ("retriable",), 12, 2, False, False), (2, ("abortable", "fatal"), 8, 1, False, False),
-                 (2, ("retriable",), 6, 1, True, False), (2, ("retriable",), 6, 1, False, True)]
+                 (2, ("retriable",), 6, 1, True, False), (2, ("retriable",), 6, 1, False, True), (2, (), 0, 0, False, "race")]
     hs = []
     for ntxn, kinds, mfr, mf, kill, timing in confs:
+        race = timing == "race"
+        timing = timing is True
         hs.append(Harness(
-            name=f"S1_transactions_{ntxn}txn_{'_'.join(kinds) or 'nofault'}_{mfr}req_{mf}faults{'_kill' if kill else ''}{'_timing' if timing else ''}", fn=s1_transactions,
-            params={"ntxn": ntxn, "fault_kinds": kinds, "max_fault_requests": mfr, "max_faults": mf, "kill": kill, "timing": timing},
+            name=f"S1_transactions_{ntxn}txn_{'_'.join(kinds) or 'nofault'}_{mfr}req_{mf}faults{'_kill' if kill else ''}{'_timing' if timing else ''}{'_end_races_send' if race else ''}", fn=s1_transactions,
+            params={"ntxn": ntxn, "fault_kinds": kinds, "max_fault_requests": mfr, "max_faults": mf, "kill": kill, "timing": timing, "race": race},
             functions=[Sender._sender_routine, Sender._maybe_do_transactional_request, Sender._do_txn_commit,
                        Sender._find_coordinator, Sender._maybe_wait_for_pid, BaseHandler.do, InitPIDHandler.handle_response,
                        AddPartitionsToTxnHandler.handle_response, AddOffsetsToTxnHandler.handle_response,
